@@ -319,6 +319,10 @@ def _sweep_work(task):
             f"_Alignas({n}) char al_{i}[64];\nalignas({n}) char am_{i};\n"
             f"struct su_{i} {{ _Alignas({n}) char c; {n} m; }};\n"
             f"void fb_{i}(void) {{ _Alignas({n}) char local; {n} w; (void)sizeof(_Alignof({n})); }}\n"
+            # ... in unnamed parameters of function type (the name must not be taken for a parameter name)
+            # and at the head of the declaration list of an old-style definition
+            f"void u_{i}(void *({n}, {n}), {n} *({n}));\n"
+            f"int k_{i}(a, b) {n} a; {n} *b; {{ return 0; }}\n"
             for i, n in declared))
     prob, info = run_cell(sweep_file, std, form, sc)
     if prob:
@@ -331,6 +335,32 @@ def _sweep_work(task):
                   and isinstance(d.type.type, c_ast.IdentifierType) and d.type.type.names == [n])
             if not ok:
                 fails.append((f"typedef-not-usable:{n}", case, f"-std={std} {form} form: `{n} v_{i};` did not become a Decl of type {n}"))
+            many = len(declared) > 3
+
+            def names_of(t):  # type name of a Typename/Decl whose type is [PtrDecl ->] TypeDecl -> IdentifierType
+                t = getattr(t, "type", None)
+                if isinstance(t, c_ast.PtrDecl):
+                    t = t.type
+                t = getattr(t, "type", None)
+                return getattr(t, "names", None)
+
+            u = decls.get(f"u_{i}")
+            ps = getattr(getattr(getattr(u, "type", None), "args", None), "params", None) or []
+            okU = len(ps) == 2 and all(isinstance(q, c_ast.Typename) and q.name is None and isinstance(q.type, c_ast.FuncDecl)
+                                       and isinstance(q.type.type, c_ast.PtrDecl) for q in ps)
+            if okU:
+                inner = [[(type(x).__name__, getattr(x, "name", "?"), names_of(x)) for x in q.type.args.params] for q in ps]
+                okU = (inner == [[("Typename", None, [n])] * 2, [("Typename", None, [n])]]
+                       and names_of(ps[0].type) == ["void"] and names_of(ps[1].type) == [n])
+            if not okU:
+                fails.append(("typedef-in-unnamed-function-type-parameter" if many else f"typedef-in-unnamed-function-type-parameter:{n}", case,
+                              f"-std={std} {form} form: `void u_{i}(void *({n}, {n}), {n} *({n}));` is not two unnamed parameters of function type taking {n}"))
+            kd = next((e for e in info["ast"].ext if isinstance(e, c_ast.FuncDef) and e.decl.name == f"k_{i}"), None)
+            pd = getattr(kd, "param_decls", None) or []
+            if not (len(pd) == 2 and [d2.name for d2 in pd] == ["a", "b"] and names_of(pd[0]) == [n] and names_of(pd[1]) == [n]
+                    and isinstance(pd[1].type, c_ast.PtrDecl)):
+                fails.append(("typedef-at-head-of-old-style-declaration-list" if many else f"typedef-at-head-of-old-style-declaration-list:{n}", case,
+                              f"-std={std} {form} form: `int k_{i}(a, b) {n} a; {n} *b; {{...}}` did not give param_decls a, b of type {n}"))
             a = decls.get(f"al_{i}")
             al = getattr(a, "align", None) or []
             t = getattr(al[0], "alignment", None) if al else None
